@@ -16,7 +16,7 @@ def queries(tier):
             qs.append(Query('finder/%s/L%d' % (ch, L), 'C01_leaf.cpp', 'h_finder', {'L': L, 'CHAR': ch}, bounds=b, default_unwind=12, cflags=['-Dprotected=public'], timeout=600))
             b2 = {'parseIfCase|vf_buf.*': L + 2, 'IsEqual': 6}
             qs.append(Query('if_case/%s/L%d' % (ch, L), 'C01_leaf.cpp', 'h_if_case', {'L': L, 'CHAR': ch}, bounds=b2, cflags=['-Dprotected=public'], timeout=600))
-        for L in ((6,) if ch != 'char' else ((8,) if tier == 'quick' else (6, 8, 10, 12))):
+        for L in ((() if tier == 'quick' else (6,)) if ch != 'char' else ((8,) if tier == 'quick' else (6, 8, 10, 12))):
             b3 = {'parseLoopAttributes|vf_buf.*': L + 2, 'IsEqual': 7, 'checkLoopVariable': 3}
             qs.append(Query('loop_attrs/%s/L%d' % (ch, L), 'C01_leaf.cpp', 'h_loop_attrs', {'L': L, 'CHAR': ch}, bounds=b3, cflags=['-Dprotected=public'], timeout=900))
         for L in ((6,) if tier == 'quick' else (4, 6, 8)):
@@ -44,6 +44,6 @@ def queries(tier):
             qs.append(Query('driver/cut/%s/%d' % (name, cut), 'C02_render.cpp', 'h_render', {'TPL': _json.dumps(tpl), 'VAL': val, 'EXPECT': exp, 'CUT': cut}, bounds=_c02.B(len(tpl)), default_unwind=5,
                             default_rec=3, rec_bounds={'~Value': 2, 'render|evaluate|parseExpressions': 4}, timeout=600, mem_gb=14))
     for name, tpl, val in MALFORMED:
-        qs.append(Query('driver/malformed/%s' % name, 'C02_render.cpp', 'h_render', {'TPL': _json.dumps(tpl), 'VAL': val, 'EXPECT': 'L("")', 'CUT': len(tpl)}, bounds=_c02.B(len(tpl)), default_unwind=5,
+        qs.append(Query('driver/malformed/%s' % name, 'C02_render.cpp', 'h_render', {'TPL': _json.dumps(tpl), 'VAL': val, 'EXPECT': 'L("")', 'CUT': len(tpl), 'LEAFN': 1}, bounds=_c02.B(len(tpl)), default_unwind=5,
                         default_rec=4, rec_bounds={'~Value': 2, 'render|evaluate|parseExpressions': 5}, timeout=600, mem_gb=14))
     return qs
